@@ -810,6 +810,33 @@ impl<E: Effect> Executor<E> {
         Ok(())
     }
 
+    /// Record that `awaited` failed with `error`, for `awaiter`'s select to find.
+    ///
+    /// The failure is not applied here: it propagates when a select of `awaiter` that lists
+    /// `awaited` reaches that source with no earlier-written source ready. A process that merely
+    /// listed `awaited` in a select that has since completed is left alone.
+    pub fn notify_failure(&mut self, awaiter: ProcessId, awaited: ProcessId, error: Error) {
+        self.store_awaited_failure(awaiter, awaited, error, true);
+    }
+
+    fn store_awaited_failure(
+        &mut self,
+        awaiter: ProcessId,
+        awaited: ProcessId,
+        error: Error,
+        answers_query: bool,
+    ) {
+        if let Some(process) = self.get_process_mut(awaiter) {
+            if answers_query {
+                process.await_unanswered.remove(&awaited);
+            }
+            process.await_failures.insert(awaited, error);
+        }
+        if self.selecting.remove(&awaiter) {
+            self.queue.push_back(awaiter);
+        }
+    }
+
     /// Notify a process that an effect operation completed
     pub fn notify_effect_completion(
         &mut self,
@@ -1310,11 +1337,8 @@ impl<E: Effect> Executor<E> {
                         .ok(); // Ignore errors since this is internal notification
                     }
                     Some(Err(error)) => {
-                        // Error - propagate to awaiter by setting their result
-                        if let Some(awaiter_process) = self.get_process_mut(awaiter) {
-                            awaiter_process.result = Some(Err(error.clone()));
-                            awaiter_process.frames.clear();
-                        }
+                        // Error - left for the awaiter's select to find (see `notify_failure`)
+                        self.store_awaited_failure(awaiter, current_pid, error.clone(), false);
                     }
                     None => {
                         // No result yet (shouldn't happen at this point)
@@ -2283,6 +2307,7 @@ impl<E: Effect> Executor<E> {
                 if let Some(Some(previous)) = process.awaiting.insert(*target, None) {
                     replaced.push(previous);
                 }
+                process.await_failures.remove(target);
             }
             for previous in &replaced {
                 self.release(previous);
@@ -2423,6 +2448,11 @@ impl<E: Effect> Executor<E> {
         let process = self
             .get_process(pid)
             .ok_or(Error::InvalidArgument("Process not found".to_string()))?;
+
+        // A failed process propagates its error once the select gets this far
+        if let Some(error) = process.await_failures.get(&target_pid) {
+            return Err(error.clone());
+        }
 
         // Check if result is available (we've already awaited upfront)
         if let Some(result_opt) = process.awaiting.get(&target_pid)
